@@ -116,6 +116,13 @@ func Generate(t *tape.Tape, p Profile) *World {
 	if p.Clusters && t.Chance(1, 6) {
 		g.namedBasicElems()
 	}
+	if p.Clusters && t.Chance(1, 8) {
+		// two instantiations of one generic named type next to each other
+		if w.RawFiles == nil {
+			w.RawFiles = map[string]string{}
+		}
+		w.RawFiles["p/zz_generic.go"] = "package p\n\ntype GList[T any] []T\n\ntype GHolder struct {\n\tNames  GList[[]string]\n\tCounts GList[[]int]\n\tFlags  GList[[]string]\n}\n\nfunc useGen1(a, b *GHolder) bool { return deriveEqualGen(a, b) }\n\nfunc useGen2(a *GHolder) string { return deriveGoStringGen(a) }\n\nfunc useGen3(a, b *GHolder) int { return deriveCompareGen(a, b) }\n"
+	}
 	if p.Clusters && t.Chance(1, 5) {
 		g.curriedPair()
 	}
@@ -817,6 +824,10 @@ func (g *gen) genUserFunc() {
 		return
 	}
 	text := fmt.Sprintf("func %s(a, b complex64) complex64 { return a - b }\n\nvar _ = %s(1, 2)\n", n, n)
+	if t.Bool() {
+		// not a function declaration: a function-typed variable that is called
+		text = fmt.Sprintf("var %s = func(a, b complex64) complex64 { return a - b }\n\nvar _ = %s(1, 2)\n", n, n)
+	}
 	w.UserFuncs = append(w.UserFuncs, UserFunc{Pkg: pkg, Name: n, Text: text, File: t.Intn(w.NFiles)})
 }
 
